@@ -713,6 +713,22 @@ theorem resample_support (hist : List Nat) (M : Nat) (draws : List (Rat × Rat))
     · rw [List.getD_eq_getElem?_getD, List.getElem?_append_right (by rw [hlen, take_len]; omega)]
       exact (List.getD_eq_getElem?_getD ..).symm.trans (getD_replicate_zero _ _)
 
+/-- **round 4 — the law of one accepted draw**: in `resample_*line_dist` (lengths `1 … L_max`,
+`L_max > 0`) the pair of draws `(u1, u2)` adds a line of length `x + 1` iff it lies in the rectangle
+`[x/L_max, (x+1)/L_max) × [0, P(x+1)/Σ P)` — whatever happened before.  The rectangles are disjoint
+and equally wide, so for uniform independent draws an accepted line has length `x + 1` with
+probability `P(x+1)/Σ P`: the resampled histogram is a multinomial sample of the original
+(the measure-theoretic step is not formalised). -/
+theorem bootstrap_accept_region (hist : List Nat) (hL : maxLen hist ≠ 0) (u1 u2 : Rat)
+    (s : StructC08.RS) (x : Nat) :
+    ((StructC08.rejIter (normDist (hist.take (maxLen hist))) ((maxLen hist : Nat) : Int) u1 u2 s).i
+        = s.i + 1 ∧ Rat.floor (u1 * (((maxLen hist : Nat) : Int) : Rat)) = x)
+      ↔ ((x : Rat) / (maxLen hist : Nat) ≤ u1 ∧ u1 < ((x : Rat) + 1) / (maxLen hist : Nat) ∧
+          u2 < ((hist.take (maxLen hist)).getD x 0 : Rat) / ((hist.take (maxLen hist)).sum : Nat)) := by
+  have := rejIter_accept_iff (normDist (hist.take (maxLen hist))) (maxLen hist)
+    (Nat.pos_of_ne_zero hL) u1 u2 s (x : Int)
+  simpa [normDist] using this
+
 /-- non-vacuity: two accepted draws at length 2, one rejected at length 1 (probabilities 1/3, 2/3) -/
 example : UnitDraws [(1/2, 0), (0, 1/2), (3/4, 1/2)] := by
   intro u hu
